@@ -109,7 +109,7 @@ func buildRealGraphC(g *GraphSpec, stages map[string]*scheduler.Stage, built map
 		case "true":
 			st.Condition = "/bin/true"
 		case "false":
-			st.Condition = "/bin/false"
+			st.Condition = falseCondition(s.Name)
 		case "missing":
 			st.Condition = "/nonexistent/verif-missing-binary"
 		}
